@@ -69,6 +69,18 @@ bool set_present(int i, int slot, int set, int64_t n)
   return ((n + set + slot + i) % 3) != 0;
 }
 bool g_counter_nonmono = false;  // set per run from the knob: counters report totals that go down too
+// knob hash_twins: attribute "s" of series 2 is the bool true instead of the int64 2. Its
+// std::hash equals that of the int64 1 of series 1, so the two attribute sets differ as maps
+// while their hashes collide: only the equality comparison keeps the series apart.
+bool g_hash_twins = false;
+common::AttributeValue s_value(int set)
+{
+  return g_hash_twins && set == 2 ? common::AttributeValue(true) : common::AttributeValue((int64_t)set);
+}
+std::string s_canon(int set)
+{
+  return g_hash_twins && set == 2 ? std::string("s=b:1;") : fmt("s=i64:%d;", set);
+}
 int64_t observed_value(int kind, int i, int slot, int set, int64_t n)
 {
   if ((kind == I_OBS_COUNTER_LONG || kind == I_OBS_COUNTER_DOUBLE) && g_counter_nonmono)
@@ -86,7 +98,7 @@ std::string series_key(int slot, int set)
 {
   if (no_attr_series(slot, set))
     return "";
-  return fmt("cb=i64:%d;s=i64:%d;", slot, set);
+  return fmt("cb=i64:%d;", slot) + s_canon(set);
 }
 
 struct CbState
@@ -141,8 +153,8 @@ void callback_fn(metrics_api::ObserverResult result, void *state)
     if (!set_present(st->instr, st->slot, set, n))
       continue;
     int64_t v = observed_value(kind, st->instr, st->slot, set, n);
-    std::map<std::string, int64_t> attrs{{"cb", st->slot}, {"s", set}};
-    common::KeyValueIterableView<std::map<std::string, int64_t>> view(attrs);
+    std::map<std::string, common::AttributeValue> attrs{{"cb", (int64_t)st->slot}, {"s", s_value(set)}};
+    common::KeyValueIterableView<std::map<std::string, common::AttributeValue>> view(attrs);
     bool bare = no_attr_series(st->slot, set);
     if (nostd::holds_alternative<nostd::shared_ptr<metrics_api::ObserverResultT<int64_t>>>(result))
     {
@@ -327,8 +339,8 @@ void run_program(World &w, const TaskProg &t)
         }
         break;
       case OP_RECORD: {
-        std::map<std::string, int64_t> attrs{{"s", op.a}};
-        common::KeyValueIterableView<std::map<std::string, int64_t>> view(attrs);
+        std::map<std::string, common::AttributeValue> attrs{{"s", s_value((int)op.a)}};
+        common::KeyValueIterableView<std::map<std::string, common::AttributeValue>> view(attrs);
         ev(E_REC_INV, op.a, op.b);
         {
           InOp io;
@@ -353,6 +365,7 @@ void body(const Case &c)
 {
   hist().clear();
   g_counter_nonmono = c.knob("counter_nonmono", 0) != 0;
+  g_hash_twins      = c.knob("hash_twins", 0) != 0;
   World w;
   W          = &w;
   w.c        = &c;
@@ -437,6 +450,7 @@ void body(const Case &c)
 void check(const Case &c, const vsim::RunResult &)
 {
   g_counter_nonmono = c.knob("counter_nonmono", 0) != 0;
+  g_hash_twins      = c.knob("hash_twins", 0) != 0;
   const auto &H = hist();
   World &w      = g_keep;
   int ninstr = (int)c.knob("ninstr", 1), nread = (int)c.knob("nreaders", 1);
@@ -472,7 +486,7 @@ void check(const Case &c, const vsim::RunResult &)
           got[p.attrs] = p.value;
       for (int s = 0; s < 3; ++s)
       {
-        std::string key = fmt("s=i64:%d;", s);
+        std::string key = s_canon(s);
         const Rec *latest = nullptr;
         std::set<int64_t> candidates;
         for (auto &r : recs)
@@ -759,6 +773,8 @@ void generate(const std::string &, Rng &wl, Rng &fl, Case &c)
   c.set("nreaders", nread);
   for (int r = 0; r < nread; ++r)
     c.set(fmt("temp%d", r).c_str(), (int64_t)wl.below(2));
+  if (wl.chance(0.25))
+    c.set("hash_twins", 1);  // series 2 is keyed by a value whose hash collides with series 1's
   bool sync_gauge = wl.chance(0.2);
   if (sync_gauge)
   {
@@ -898,7 +914,8 @@ const EngineDesc g_engine = {
     "appear and disappear, and a control task adding / removing callbacks and destroying "
     "instruments while collections run; or (20%) a SyncMetricStorage(kGauge, kLastValue) "
     "recorded by 1-3 tasks and collected by 1-3 stub collectors; clock strata: strictly "
-    "increasing reads (85%) and tied reads (15%); distinct = distinct (workload hash, trace "
+    "increasing reads (85%) and tied reads (15%); in 25% of the runs one series is keyed by a "
+    "value of another type whose hash collides with a sibling series' value; distinct = distinct (workload hash, trace "
     "hash); non-trivial = >= 2 tasks and >= 1 context switch while a task was inside "
     "Collect/AddCallback/RemoveCallback/Record"};
 }
